@@ -1,5 +1,6 @@
 (* C18 - tar detection tracks header checksum validity.  K1 (Gentoo gpkg names) is an explicit hypothesis. *)
-From Verif Require Import Base.Bytes Model.Types Model.Tar Model.Detect Gen.TreeData Spec.SpecTar Proofs.TarP.
+From Verif Require Import Base.Bytes Model.Types Model.Tar Model.Detect Gen.TreeData Spec.SpecTar Proofs.TarP
+  Model.GoRes Gen.SrcFuncs Proofs.SrcTarP.
 
 (* the arithmetic heart: after corrupting one byte outside the checksum field the recorded sum (unsigned or
    signed convention) equals neither recomputed sum *)
@@ -35,6 +36,20 @@ Definition root_kid_vars : list string :=
 Theorem C18_tar_priority : take_until "tar"%string root_kid_vars = before_tar_spec.
 Proof. vm_compute. reflexivity. Qed.
 Print Assumptions C18_tar_priority.
+
+(* the model the theorems above are about IS the current source: Tar, tarParseOctal and tarChksum as translated from
+   /repo/internal/magic/archive.go on this run (Gen/SrcFuncs.v: the loops over the header as range_loop, the octal
+   accumulation `ret<<3 | int64(b-'0')` and the int8 conversion as written) never reach Panic and return tar_det,
+   for every input made of bytes *)
+Theorem C18_tar_is_the_source : forall raw l, bytes_ok raw = true -> src_Tar raw l = Val (tar_det raw).
+Proof. exact src_Tar_ok. Qed.
+Print Assumptions C18_tar_is_the_source.
+
+Theorem C18_checksum_helpers_are_the_source :
+  (forall fld, src_tarParseOctal fld = Val (match tar_parse_octal fld with Some r => Z.of_N r | None => (-1)%Z end)) /\
+  (forall h, bytes_ok h = true -> src_tarChksum h = Val (usum h, ssum h)).
+Proof. split; [exact src_tarParseOctal_ok|exact src_tarChksum_ok]. Qed.
+Print Assumptions C18_checksum_helpers_are_the_source.
 
 (* K1: the known finding, on the model *)
 Theorem C18_gpkg_refuted :
